@@ -2043,10 +2043,7 @@ theorem historyE_spec (D : Down) (hD : D.Sorted) (splitMs : Int) (hsp : 0 < spli
   | [], _, _, _ => rfl
   | s :: rs, c, hc, hr => by
     obtain ⟨h1, h2, h3⟩ := hr s (by simp)
-    have hc0 : GoodCacheM D (if s.flush then [] else c) := by
-      cases s.flush
-      · simpa using hc
-      · simpa using goodCacheM_nil D
+    have hc0 : GoodCacheM D (evict s.lose c) := fun kv hkv => hc kv (List.mem_filter.mp hkv).1
     obtain ⟨c', hf, hc'⟩ := frontend_spec_m s.env D hD splitMs hsp _ s.req h1 h2 h3 hc0
     unfold historyE
     simp only
